@@ -3,7 +3,7 @@
    until they are in, this file carries the full statement as a definition,
    the tie obligations the statement rests on, and the property is decided on
    every run by the correspondence described in DESIGN.md. *)
-From SJ Require Import Model.Base Model.RefTables Spec.Json Spec.EditSpec Model.Driver Model.Tape Model.Iter Model.Walk Model.Edit Model.WF Proofs.AcceptProofs Tie.GoTablesTie.
+From SJ Require Import Model.Base Model.RefTables Spec.Json Spec.EditSpec Model.Driver Model.Tape Model.Iter Model.Walk Model.Edit Model.WF Proofs.AcceptProofs Proofs.TapeProofs Tie.GoTablesTie.
 Open Scope N_scope.
 
 Definition pj_of (p : parsed) : pjson := {| pj_tape := p_tape p; pj_strings := p_strings p; pj_msg := p_msg p |}.
@@ -25,6 +25,15 @@ Theorem C02_denote_eq_spec : forall (copy : bool) (bs : bytes) (d : doc),
   exists p, parse_model copy bs = Ok p /\ denote (p_msg p) (p_strings p) (p_tape p) = Some [d].
 Proof. exact parse_accepts_valid. Qed.
 Print Assumptions C02_denote_eq_spec.
+
+(* PROVED: plain traversal through the modelled iterator API returns the
+   denotation of every well-formed tape (the parser's tapes pass wf_check false:
+   evaluated on every real tape by the C17 check, proof under way) *)
+Theorem C02_traversal_eq_denote : forall pj ds,
+  N.of_nat (length (pj_msg pj)) < two64 -> N.of_nat (length (pj_strings pj)) < two64 ->
+  wf_check false pj = true -> denote (pj_msg pj) (pj_strings pj) (pj_tape pj) = Some ds -> walk_doc pj = Ok ds.
+Proof. exact walk_doc_wf_false. Qed.
+Print Assumptions C02_traversal_eq_denote.
 
 Theorem C02_tie_tags : tab_diff gen.Tables.gen_TagToType TagToType_ref 256 = [].
 Proof. exact tie_TagToType. Qed.
